@@ -26,7 +26,7 @@ Tag(text, key, value, boolean) == [text |-> text, tag |-> [key |-> key, value |-
 
 -----------------------------------------------------------------------------
 (* definition variants; n makes the names unique *)
-NVariants == 13
+NVariants == 14
 DV(k, n) ==
   CASE k = 1 -> [k |-> "struct", name |-> Nm("Sa", n), ro |-> FALSE, op |-> "", opval |-> NoOp, doc |-> NoDoc, asp |-> "post",
                  fields |-> << PlainF("a", P("int32"), 0), PlainF("b", A(P("string")), 0) >>]
@@ -64,6 +64,10 @@ DV(k, n) ==
                   members |-> << [name |-> "X", lit |-> <<"0x80">>, val |-> <<128>>, dep |-> "", doc |-> NoDoc],
                                  [name |-> "Y", lit |-> <<"(", "X", ">>", "1", ")", "|", "1">>, val |-> <<65>>, dep |-> "", doc |-> NoDoc] >>]
 
+    [] k = 14 -> [k |-> "struct", name |-> Nm("Sd", n), ro |-> FALSE, op |-> "", opval |-> NoOp,
+                  doc |-> BlockDoc("\n * javadoc style\n *\n * second paragraph\n "), asp |-> "post",
+                  fields |-> << PlainF("q", P("uint64"), 0) >>]
+
 MaxSeq == IF Tier = "thorough" THEN 3 ELSE 2
 RECURSIVE Pow(_, _)
 Pow(b, e) == IF e = 0 THEN 1 ELSE b * Pow(b, e - 1)
@@ -78,7 +82,7 @@ SeqItems(i) == LET ks == SeqOfIndex(NVariants, i - 1, 1) IN [j \in 1..Len(ks) |-
 
 -----------------------------------------------------------------------------
 (* field variants inside each kind of container *)
-NFieldVariants == 7
+NFieldVariants == 8
 FV(k, j, idx) ==   \* j-th field of the container; idx used by messages
   LET nm == Nm("f", j) IN
   CASE k = 1 -> PlainF(nm, P("int32"), idx)
@@ -88,6 +92,7 @@ FV(k, j, idx) ==   \* j-th field of the container; idx used by messages
     [] k = 5 -> Fd(nm, P("bool"), idx, "", NoDoc, << Tag("json:\"x,omitempty\"", "json", "x,omitempty", FALSE), Tag("flag", "flag", "", TRUE) >>, "")
     [] k = 6 -> Fd(nm, P("guid"), idx, "", NoDoc, <<>>, " trailing remark")
     [] k = 7 -> Fd(nm, M("uint32", P("date")), idx, "both", LineDoc(" line one") \o LineDoc(" line two"), <<>>, "")
+    [] k = 8 -> Fd(nm, P("float64"), idx, "", BlockDoc(" first paragraph\n\n   second paragraph after an empty line\n "), <<>>, "")
 
 MaxItems == IF Tier = "thorough" THEN 3 ELSE 2
 NItemSeqs == NSeqs(NFieldVariants, MaxItems)
